@@ -90,6 +90,8 @@ var c10Layouts = []c10Layout{
 	{"\n  ", "", " ", "\n", "\n  ", "\n", "\n"},
 	{" ", "", " ", "", " ", "\r\n\t ", " "},
 	{"", "", "", "", "", "\t", "\t"},
+	// more than 512 bytes of white space in front of the object
+	{"", "", "", "", "", strings.Repeat(" \n", 200), "\n"},
 }
 
 type c10Ser struct {
